@@ -429,6 +429,7 @@ func c07Blocks(r *core.Run, p *core.Program) {
 		fileEv("sync the index file", "(*os.File).Sync", "blockindx"),
 	})
 	blockdbFlushDrains(r, p, rule)
+	c16ResumePosition(r, p, rule)
 	lb := p.Func("lib/chain.(*BlockDB).LoadBlockIndex")
 	if lb != nil {
 		// a short read leaves the loop
@@ -614,66 +615,66 @@ func blockdbFlushDrains(r *core.Run, p *core.Program, rule string) {
 // selects between installing and removing the temporary file (a notice stored in a shadowed variable would
 // end the loop but still install the truncated file).
 func snapshotAbortNotice(r *core.Run, p *core.Program, rule string, wr *ssa.Function) {
-		var cond ssa.Value
-		an.Instrs(wr, func(i ssa.Instruction) {
-			c, ok := i.(ssa.CallInstruction)
-			if !ok || an.CallName(c) != "os.Rename" {
-				return
+	var cond ssa.Value
+	an.Instrs(wr, func(i ssa.Instruction) {
+		c, ok := i.(ssa.CallInstruction)
+		if !ok || an.CallName(c) != "os.Rename" {
+			return
+		}
+		for _, cc := range controlConds(c.Block()) {
+			if !cc.Truth && cond == nil {
+				cond = cc.If.Cond
 			}
-			for _, cc := range controlConds(c.Block()) {
-				if !cc.Truth && cond == nil {
-					cond = cc.If.Cond
-				}
+		}
+	})
+	closure := map[ssa.Value]bool{}
+	var grow func(v ssa.Value)
+	grow = func(v ssa.Value) {
+		if v == nil || closure[v] {
+			return
+		}
+		closure[v] = true
+		switch x := v.(type) {
+		case *ssa.Phi:
+			for _, e := range x.Edges {
+				grow(e)
 			}
-		})
-		closure := map[ssa.Value]bool{}
-		var grow func(v ssa.Value)
-		grow = func(v ssa.Value) {
-			if v == nil || closure[v] {
-				return
-			}
-			closure[v] = true
-			switch x := v.(type) {
-			case *ssa.Phi:
-				for _, e := range x.Edges {
-					grow(e)
-				}
-			case *ssa.UnOp:
-				if x.Op == token.MUL { // a spilled variable: everything stored into it
-					if al, ok := x.X.(*ssa.Alloc); ok {
-						for _, ref := range *al.Referrers() {
-							if st, ok := ref.(*ssa.Store); ok {
-								grow(st.Val)
-							}
+		case *ssa.UnOp:
+			if x.Op == token.MUL { // a spilled variable: everything stored into it
+				if al, ok := x.X.(*ssa.Alloc); ok {
+					for _, ref := range *al.Referrers() {
+						if st, ok := ref.(*ssa.Store); ok {
+							grow(st.Val)
 						}
 					}
 				}
 			}
 		}
-		grow(cond)
-		nrecv, lost := 0, ""
-		an.Instrs(wr, func(i ssa.Instruction) {
-			v, ok := i.(ssa.Value)
-			if !ok || v.Type().String() != "bool" {
-				return
+	}
+	grow(cond)
+	nrecv, lost := 0, ""
+	an.Instrs(wr, func(i ssa.Instruction) {
+		v, ok := i.(ssa.Value)
+		if !ok || v.Type().String() != "bool" {
+			return
+		}
+		isRecv := false
+		switch x := i.(type) {
+		case *ssa.UnOp:
+			isRecv = x.Op == token.ARROW
+		case *ssa.Extract:
+			if sel, ok := x.Tuple.(*ssa.Select); ok && x.Index >= 2 {
+				st := sel.States[x.Index-2]
+				isRecv = st.Dir == types.RecvOnly && strings.HasSuffix(st.Chan.Type().String(), "chan bool")
 			}
-			isRecv := false
-			switch x := i.(type) {
-			case *ssa.UnOp:
-				isRecv = x.Op == token.ARROW
-			case *ssa.Extract:
-				if sel, ok := x.Tuple.(*ssa.Select); ok && x.Index >= 2 {
-					st := sel.States[x.Index-2]
-					isRecv = st.Dir == types.RecvOnly && strings.HasSuffix(st.Chan.Type().String(), "chan bool")
-				}
-			}
-			if !isRecv {
-				return
-			}
-			nrecv++
-			if !closure[v] {
-				lost = p.Pos(i.Pos())
-			}
-		})
-		r.Check(cond != nil && nrecv >= 2 && lost == "", rule, "writer/abort-notice-reaches-decision", p.Pos(wr.Pos()), fmt.Sprintf("%d receives of the abort notice, all feeding the install-or-remove decision", nrecv), "an abort notice received at "+lost+" does not reach the condition that decides between installing and removing the temporary file")
+		}
+		if !isRecv {
+			return
+		}
+		nrecv++
+		if !closure[v] {
+			lost = p.Pos(i.Pos())
+		}
+	})
+	r.Check(cond != nil && nrecv >= 2 && lost == "", rule, "writer/abort-notice-reaches-decision", p.Pos(wr.Pos()), fmt.Sprintf("%d receives of the abort notice, all feeding the install-or-remove decision", nrecv), "an abort notice received at "+lost+" does not reach the condition that decides between installing and removing the temporary file")
 }
